@@ -1,8 +1,9 @@
 (* Arith/PropertiesC04.v — property theorems of C04 only; proofs live in Proofs.v.
    Each boundary at which the type-checking mode is consulted: whatever strict mode accepts,
    relaxed mode computes with the same result.  All values (integer, bool, string), all constness. *)
-From Coq Require Import ZArith List.
-From Arith Require Import Model Spec Proofs.
+From Coq Require Import ZArith List Lia.
+From Arith Require Import Model Spec Proofs Prog ProgProofs.
+Import ListNotations.
 Open Scope Z_scope.
 
 (* The full statement of C04 quantifies over whole programs; what is proved is the statement at
@@ -48,6 +49,27 @@ Theorem C04_float_literal_partial :
     exists y, r = VInt k y /\ in_range k y.
 Proof. exact float_literal_adapts. Qed.
 
+(* the six comparison opcodes (Equal, NotEqual, LessThan, LessThanOrEqual, GreaterThan, GreaterThanOrEqual),
+   stack form and operand-constant form alike (the right operand y then comes from the instruction) *)
+Theorem C04_compare_partial :
+  forall o x y r, compare_op Strict o x y = Ok r -> compare_op Relaxed o x y = Ok r.
+Proof. exact compare_strict_relaxed. Qed.
+
+(* program-level lift: any forward-branching instruction list over the modelled boundaries (Push, Load,
+   Add..Modulo, the comparisons in both forms, Negate, Store, Increment, argument and return coercion, print,
+   BranchFalse/BranchTrue/Jump), started in any state whose integers are wrapped to their kind: if it runs to
+   completion under strict typing, it runs to completion under relaxed typing with the same output and the
+   same final variables (indeed the same final state).  Proved by induction on the list from the
+   per-boundary theorems; the invariant "values stay wrapped" is proved along the strict run. *)
+Theorem C04_program_partial :
+  forall p s o, Forall wf_instr p -> wf_state s ->
+    observe (run Strict p s) = Ok o -> observe (run Relaxed p s) = Ok o.
+Proof. exact program_strict_relaxed. Qed.
+Theorem C04_program_state_partial :
+  forall p s s1, Forall wf_instr p -> wf_state s ->
+    run Strict p s = Ok s1 -> run Relaxed p s = Ok s1.
+Proof. exact run_sim. Qed.
+
 Theorem C04_boundaries_partial : C04_statement_boundaries.
 Proof.
   repeat split; [exact binop_strict_relaxed|exact store_strict_relaxed|exact argument_strict_relaxed|
@@ -70,6 +92,39 @@ Example C04_nonvacuous_float_literal :
   binop Relaxed Mul (VFlt 3, false) (VInt I8 100, true) = Ok (VFlt 300) /\
   store Strict (VFlt 1) (VInt Int 9007199254740993, true) = Ok (VFlt 9007199254740992).
 Proof. vm_compute. repeat split; reflexivity. Qed.
+(* comparisons: strict accepts same-type operands and a constant against any numeric kind *)
+Example C04_nonvacuous_compare :
+  compare_op Strict CLt (VInt I8 (-1), false) (VInt Int 300, true) = Ok (VBool true) /\
+  compare_op Strict CEq (VStr [97]%N, false) (VStr [97]%N, false) = Ok (VBool true) /\
+  compare_op Strict CGe (VInt U16 5, false) (VFlt 5, true) = Ok (VBool true) /\
+  compare_op Strict CLt (VInt I8 (-1), false) (VInt U16 5, false) = Err ETypeMismatch /\
+  compare_op Relaxed CLt (VInt I8 (-1), false) (VInt U16 5, false) = Ok (VBool false).
+Proof. vm_compute. repeat split; reflexivity. Qed.
+
+(* a program with data flow through two variables, a constant adapting at Store, a typed argument and return,
+   a comparison with a folded constant, and a branch: var x int8 = 100; var y int32 = 7;
+   x = x + 28 (wraps to -128); y += 1 (fused); if x < 0 { print x } else { print y }; print f(y*2) with f's
+   parameter and result declared int32 *)
+Definition C04_demo_prog : list instr :=
+  [ ILoad 0; IPush (VInt Int 28) true; IBin Add; IStore 0;
+    IIncr 1 (VInt Int 1) true;
+    ILoad 0; ICmpK CLt (VInt Int 0) true; IBranchFalse 3;
+    ILoad 0; IPrint; IJump 2;
+    ILoad 1; IPrint;
+    ILoad 1; IPush (VInt Int 2) true; IBin Mul; IArg (KI I32); IRet (KI I32); IPrint ].
+Definition C04_demo_state : state :=
+  {| stack := []; vars := [VInt I8 100; VInt I32 7]; out := []; skip := 0 |}.
+Example C04_nonvacuous_program :
+  Forall wf_instr C04_demo_prog /\ wf_state C04_demo_state /\
+  observe (run Strict C04_demo_prog C04_demo_state)
+    = Ok ([VInt I8 (-128); VInt I32 16], [VInt I8 (-128); VInt I32 8]) /\
+  observe (run Dynamic C04_demo_prog C04_demo_state)
+    = Ok ([VInt I8 (-128); VInt I32 16], [VInt I8 (-128); VInt I32 8]).
+Proof.
+  split; [|split; [|split; vm_compute; reflexivity]].
+  - repeat constructor; cbn [wf_instr wfv]; try exact I; unfold in_range; cbn; lia.
+  - split; repeat constructor; cbn [wf_item wfv fst]; unfold in_range; cbn; lia.
+Qed.
 Example C04_strict_removes_programs :
   binop Strict Add (VInt I32 1, false) (VInt I64 1, false) = Err ETypeMismatch /\
   binop Relaxed Add (VInt I32 1, false) (VInt I64 1, false) = Ok (VInt I64 2) /\
